@@ -222,6 +222,11 @@ class Canon(object):
         self._collect_consts()
         for m in self.prog.modules.values():
             for fn, cls in self._functions(m):
+                for n in ast.walk(fn):          # new helpers and nested closures: guard-clause predicates become one boolean expression
+                    if isinstance(n, ast.FunctionDef) and (n is not fn or fn.name not in VOCAB_FUNCS):
+                        self._single_return_predicate(n)
+        for m in self.prog.modules.values():
+            for fn, cls in self._functions(m):
                 backup = copy.deepcopy(fn.body)
                 try:
                     self._canon_function(fn, cls, m)
@@ -231,6 +236,40 @@ class Canon(object):
                     fn.body = backup
                     self.stats.setdefault('failed', []).append('%s.%s: %s: %s' % (m.name, fn.name, type(ex).__name__, ex))
         return self
+
+    def _single_return_predicate(self, fdef):
+        """def p(x): if A: return False; if B: return True; return E   ->   def p(x): return (not A) and (B or E)
+        for boolean-valued tests A, B (comparisons, isinstance, not / and / or of those): the same value on every input, and a
+        one-expression helper that the inliner and the interpreter can see through."""
+        body = body_nodoc(fdef)
+        if len(body) < 2 or not isinstance(body[-1], ast.Return) or body[-1].value is None:
+            return
+
+        def boolean(t):
+            if isinstance(t, ast.BoolOp):
+                return all(boolean(v) for v in t.values)
+            if isinstance(t, ast.UnaryOp) and isinstance(t.op, ast.Not):
+                return True
+            if isinstance(t, ast.Compare):
+                return True
+            return isinstance(t, ast.Call) and _dotted(t.func) in ('isinstance', 'issubclass', 'callable', 'hasattr', 'bool')
+        arms = []
+        for st in body[:-1]:
+            if not (isinstance(st, ast.If) and not st.orelse and len(st.body) == 1 and isinstance(st.body[0], ast.Return) and
+                    isinstance(st.body[0].value, ast.Constant) and isinstance(st.body[0].value.value, bool) and boolean(st.test)):
+                return
+            arms.append((st.test, st.body[0].value.value))
+        expr = body[-1].value
+        for test, const in reversed(arms):
+            if const:
+                expr = ast.BoolOp(op=ast.Or(), values=[test, expr])
+            else:
+                expr = ast.BoolOp(op=ast.And(), values=[ast.UnaryOp(op=ast.Not(), operand=test), expr])
+        new = ast.Return(value=expr)
+        ast.copy_location(new, body[-1])
+        ast.fix_missing_locations(new)
+        fdef.body = fdef.body[:len(fdef.body) - len(body)] + [new]
+        self.stats['spellings'] += 1
 
     def _functions(self, m):
         for st in m.tree.body:
@@ -243,6 +282,7 @@ class Canon(object):
 
     def _canon_function(self, fn, cls, m, outer_first=None):
         self.outer_first = outer_first
+        self._match_to_if(fn)
         self._subst_consts(fn, cls, m)
         self._stmt_comprehensions(fn)
         self._hoist_ifexp(fn)
@@ -318,6 +358,24 @@ class Canon(object):
                 return self.cls_consts.get(c.key, {}).get(name)
         return None
 
+    def _new_property_expr(self, cls, name):
+        """(receiver parameter, expression) of a NEW read-only property `name` of cls whose getter is `return <expr>` (extract-property
+        refactoring); None for anything in the reference vocabulary, with a setter, overridden somewhere, or with a larger body."""
+        if cls is None or name in VOCAB_FUNCS or name in VOCAB_NAMES or (name.startswith('__') and name.endswith('__')):
+            return None
+        pp = cls.find_plain_prop(name)
+        if not pp or pp.get('set') is not None or pp.get('get') is None:
+            return None
+        if sum(1 for c in self.prog.all_classes() if name in c.plain_props or name in c.methods or name in c.attrs) != 1:
+            return None
+        g = pp['get'].node
+        body = body_nodoc(g)
+        if len(g.args.args) != 1 or len(body) != 1 or not isinstance(body[0], ast.Return) or body[0].value is None:
+            return None
+        if any(isinstance(n, (ast.Yield, ast.YieldFrom, ast.Await, ast.Lambda, ast.NamedExpr)) for n in ast.walk(body[0].value)):
+            return None
+        return g.args.args[0].arg, body[0].value
+
     def _subst_consts(self, fn, cls, m):
         canon = self
         first = self._first(fn, cls)
@@ -332,6 +390,11 @@ class Canon(object):
                 base = node.value
                 if isinstance(base, ast.Name) and first is not None and base.id == first:
                     v = canon._class_const(cls, node.attr)
+                    if v is None:
+                        pe = canon._new_property_expr(cls, node.attr)
+                        if pe is not None:
+                            canon.stats['helpers'] += 1
+                            return _relocate(Subst(loads={pe[0]: base}).visit(copy.deepcopy(pe[1])), node)
                 elif isinstance(base, ast.Name) and base.id not in bound:
                     r = canon.prog.lookup(m, base.id)
                     if hasattr(r, 'mro'):
@@ -784,6 +847,83 @@ class Canon(object):
             return out
         fn.body = rec(fn.body)
 
+    # ---------------------------------------------------------------- match on values  ->  if / elif chain
+    def _match_to_if(self, fn):
+        """match s: case V: A; case W | X: B; case _: C   ->   if s == V: A elif s == W or s == X: B else: C
+        (value / singleton / or-patterns and the wildcard only; anything that binds names is left alone)."""
+        if not hasattr(ast, 'Match'):
+            return
+        canon = self
+
+        def test_of(pat, subj):
+            if isinstance(pat, ast.MatchValue):
+                return ast.Compare(left=copy.deepcopy(subj), ops=[ast.Eq()], comparators=[pat.value])
+            if isinstance(pat, ast.MatchSingleton):
+                return ast.Compare(left=copy.deepcopy(subj), ops=[ast.Is()], comparators=[ast.Constant(value=pat.value)])
+            if isinstance(pat, ast.MatchOr):
+                parts = [test_of(p, subj) for p in pat.patterns]
+                return None if any(p is None for p in parts) else ast.BoolOp(op=ast.Or(), values=parts)
+            return None
+
+        def convert(node):
+            subj = node.subject
+            pre = []
+            if not is_simple(subj):
+                name = canon._fresh('subject')
+                pre.append(ast.Assign(targets=[ast.Name(id=name, ctx=ast.Store())], value=subj, lineno=node.lineno))
+                subj = ast.Name(id=name, ctx=ast.Load())
+            arms = []
+            for i, c in enumerate(node.cases):
+                wild = isinstance(c.pattern, ast.MatchAs) and c.pattern.pattern is None and c.pattern.name is None
+                if wild and c.guard is None:
+                    if i != len(node.cases) - 1:
+                        return None
+                    arms.append((None, c.body))
+                    continue
+                t = ast.Constant(value=True) if wild else test_of(c.pattern, subj)
+                if t is None:
+                    return None
+                if c.guard is not None:
+                    t = c.guard if wild else ast.BoolOp(op=ast.And(), values=[t, c.guard])
+                arms.append((t, c.body))
+            chain = []
+            for t, body in reversed(arms):
+                body = rec(body)
+                if t is None:
+                    chain = body
+                else:
+                    chain = [ast.If(test=t, body=body, orelse=chain, lineno=node.lineno)]
+            for n in chain + pre:
+                ast.copy_location(n, node)
+                ast.fix_missing_locations(n)
+            canon.stats['spellings'] += 1
+            return pre + chain
+
+        def rec(stmts):
+            out = []
+            for s in stmts:
+                if isinstance(s, (ast.FunctionDef, ast.AsyncFunctionDef, ast.ClassDef)):
+                    out.append(s)
+                    continue
+                if isinstance(s, ast.Match):
+                    new = convert(s)
+                    if new is not None:
+                        out.extend(new or [ast.Pass(lineno=s.lineno)])
+                        continue
+                    for c in s.cases:
+                        c.body = rec(c.body)
+                    out.append(s)
+                    continue
+                for name in ('body', 'orelse', 'finalbody'):
+                    sub_ = getattr(s, name, None)
+                    if isinstance(sub_, list) and sub_ and isinstance(sub_[0], ast.stmt):
+                        setattr(s, name, rec(sub_))
+                for h in getattr(s, 'handlers', []) or []:
+                    h.body = rec(h.body)
+                out.append(s)
+            return out
+        fn.body = rec(fn.body)
+
     # ---------------------------------------------------------------- v = a if c else b  ->  if statement
     def _hoist_ifexp(self, fn):
         canon = self
@@ -802,7 +942,7 @@ class Canon(object):
                     continue
                 v = getattr(s, 'value', None)
                 if isinstance(s, (ast.Assign, ast.AugAssign, ast.AnnAssign, ast.Return, ast.Expr)) and isinstance(v, ast.IfExp) and pure_test(v.test) and \
-                        not (isinstance(s, ast.Assign) and any(not isinstance(t, (ast.Name, ast.Attribute)) for t in s.targets)) and \
+                        not (isinstance(s, ast.Assign) and any(not _plain_target(t) for t in s.targets)) and \
                         not (isinstance(s, ast.AugAssign) and not isinstance(s.target, (ast.Name, ast.Attribute))):
                     a, b = copy.deepcopy(s), copy.deepcopy(s)
                     a.value, b.value = v.body, v.orelse
@@ -921,6 +1061,12 @@ class Canon(object):
                 n.test = n.test.operand
                 n.body, n.orelse = n.orelse, n.body
                 self.stats['spellings'] += 1
+
+
+def _plain_target(t):
+    if isinstance(t, (ast.Tuple, ast.List)):
+        return all(_plain_target(e) for e in t.elts)
+    return isinstance(t, (ast.Name, ast.Attribute))
 
 
 def _always_leaves(stmts):
